@@ -9,7 +9,7 @@
 (* <<"fail", clause>> naming the first clause the observation falsifies.   *)
 (* These operators are the only source of VIOLATION lines.                 *)
 (***************************************************************************)
-EXTENDS Integers, Sequences, FiniteSets, BigNat, Notes
+EXTENDS Integers, Sequences, FiniteSets, BigNat, Notes, Tempo
 
 \* first failing clause of a sequence of <<name, bool>> pairs
 RECURSIVE FirstFail(_)
@@ -84,6 +84,89 @@ C05V(r) ==
     <<"membership-half-open-first-phrase", \A k \in DOMAIN ob : ob[k].sp = SpOf(sp, ob[k].t)>>
   >>)
 
+(***************************** C01 *****************************************)
+\* r.tempo = <<[t, n]>> as written (file order), r.res, r.segq = floor-ps witnesses of the full segments,
+\* r.obs = <<[t, us, q, k, ...]>>: every event of every kind and every direct query of one parsed chart
+C01V(r) ==
+  IF ~(r.res >= 1 /\ WellFormedTempo(r.tempo)) THEN Skip("tempo-map-not-well-formed")
+  ELSE IF r.raised # "" THEN Skip("raised")
+  ELSE IF ~(\A i \in 1..(Len(r.tempo) - 1) : SegWitnessOK(r.tempo, r.res, r.segq, i)) THEN <<"fail", "MACHINERY-bad-segment-witness">>
+  ELSE FirstFail(<<
+    <<"time-within-half-a-microsecond-per-segment",
+        \A k \in DOMAIN r.obs : r.obs[k].t >= 0 =>
+            TimeWithinBound(r.tempo, r.res, r.segq, r.obs[k].t, r.obs[k].us, r.obs[k].q)>>,
+    <<"tick-zero-is-time-zero", \A k \in DOMAIN r.obs : r.obs[k].t = 0 => r.obs[k].us = Zero>>
+  >>)
+
+(***************************** C12 *****************************************)
+\* r.obs is sorted by tick by the harness (checked); adjacent pairs then decide all pairs
+C12V(r) ==
+  LET ob == r.obs IN
+  IF ~(r.res >= 1 /\ WellFormedTempo(r.tempo)) THEN Skip("tempo-map-not-well-formed")
+  ELSE IF r.raised # "" THEN Skip("raised")
+  ELSE IF ~(\A k \in 1..(Len(ob) - 1) : ob[k].t <= ob[k+1].t) THEN <<"fail", "MACHINERY-observations-not-sorted">>
+  ELSE FirstFail(<<
+    <<"time-non-decreasing-in-tick", \A k \in 1..(Len(ob) - 1) : Leq(ob[k].us, ob[k+1].us)>>,
+    <<"equal-ticks-equal-times", \A k \in 1..(Len(ob) - 1) : ob[k].t = ob[k+1].t => ob[k].us = ob[k+1].us>>,
+    <<"note-end-not-before-start", \A k \in DOMAIN ob : ob[k].k = "note-end" => Leq(ob[k].st, ob[k].us)>>,
+    <<"strictly-increasing-when-a-tick-lasts-two-microseconds",
+        SlowEnough(r.tempo, r.res) => \A k \in 1..(Len(ob) - 1) : ob[k].t < ob[k+1].t => Lt(ob[k].us, ob[k+1].us)>>
+  >>)
+
+(***************************** C11 *****************************************)
+\* r.lk = <<[t, h, raised, us, idx, uus, uidx]>>: hinted public queries (h 0-based) with the un-hinted
+\* answer next to them; r.obs: stored events with the un-hinted query q0 at their tick.
+C11V(r) ==
+  LET tp == r.tempo IN
+  IF ~(r.res >= 1 /\ WellFormedTempo(tp)) THEN Skip("tempo-map-not-well-formed")
+  ELSE IF r.raised # "" THEN
+       (IF r.raised = "ValueError" THEN Ok ELSE <<"fail", "misordered-lines-must-raise-ValueError-or-parse">>)
+  ELSE FirstFail(<<
+    <<"hint-not-beyond-governing-event-is-invisible",
+        \A k \in DOMAIN r.lk : LET q == r.lk[k] IN
+           (q.t >= 0 /\ q.h >= 0 /\ q.h < Len(tp) /\ tp[q.h + 1].t <= q.t) =>
+               /\ q.raised = "" /\ q.uraised = ""
+               /\ q.us = q.uus /\ q.idx = q.uidx>>,
+    <<"index-is-last-tempo-event-at-or-before-tick",
+        \A k \in DOMAIN r.lk : LET q == r.lk[k] IN
+           (q.t >= 0 /\ q.uraised = "") => q.uidx + 1 = Governing(tp, q.t)>>,
+    <<"hint-beyond-governing-event-is-rejected-with-ValueError",
+        \A k \in DOMAIN r.lk : LET q == r.lk[k] IN
+           (q.t >= 0 /\ q.h >= 0 /\ ~(q.h < Len(tp) /\ tp[q.h + 1].t <= q.t)) => q.raised = "ValueError">>,
+    <<"stored-timestamp-equals-unhinted-query",
+        \A k \in DOMAIN r.obs : r.obs[k].q0r = "" /\ r.obs[k].us = r.obs[k].q0>>,
+    <<"stored-index-is-governing-index",
+        \A k \in DOMAIN r.obs : r.obs[k].idx # -1 => r.obs[k].idx + 1 = Governing(tp, r.obs[k].t)>>
+  >>)
+
+(***************************** C15 *****************************************)
+\* r.tempo / r.tst (time-signature ticks) / r.res as WRITTEN, possibly corrupted; r.raised the parse
+\* outcome; r.obs events of the parsed chart; r.qs = <<[t, raised]>> direct queries on it.
+StrictlyIncreasingTicks(tp) == \A k \in 1..(Len(tp) - 1) : tp[k].t < tp[k+1].t
+Untrustworthy(r) ==
+  \/ r.res <= 0
+  \/ r.tempo = <<>> \/ r.tempo[1].t # 0
+  \/ ~StrictlyIncreasingTicks(r.tempo)
+  \/ r.tst = <<>> \/ r.tst[1] # 0
+ZeroGoverned(tp, t) == t >= 0 /\ tp[Governing(tp, t)].n = Zero
+\* Governing needs only strictly increasing ticks starting at 0
+C15V(r) ==
+  IF Untrustworthy(r)
+  THEN (IF r.raised = "ValueError" THEN Ok ELSE <<"fail", "untrustworthy-tempo-data-not-rejected-with-ValueError">>)
+  ELSE IF r.raised # "" THEN
+       \* a usable map: only a zero tempo governing something may be rejected, and only with ValueError
+       (IF r.raised = "ValueError" /\ \E k \in DOMAIN r.tempo : r.tempo[k].n = Zero THEN Ok
+        ELSE IF r.raised = "ValueError" THEN Skip("rejected-for-another-reason")
+        ELSE <<"fail", "non-ValueError-rejection">>)
+  ELSE FirstFail(<<
+    \* (a tempo event's own time is fixed by the tempos before it, so the zero-tempo line itself may carry one)
+    <<"no-event-governed-by-zero-tempo", \A k \in DOMAIN r.obs : r.obs[k].k # "bpm" => ~ZeroGoverned(r.tempo, r.obs[k].t)>>,
+    <<"query-governed-by-zero-tempo-raises-ValueError",
+        \A k \in DOMAIN r.qs : ZeroGoverned(r.tempo, r.qs[k].t) => r.qs[k].raised = "ValueError">>,
+    <<"negative-tick-query-raises-ValueError",
+        \A k \in DOMAIN r.qs : r.qs[k].t < 0 => r.qs[k].raised = "ValueError">>
+  >>)
+
 (***************************** C08 *****************************************)
 \* r.kind = "B":  r.nd digits of n, r.m / r.e the observed tempo as m * 2^e (m the 53-bit significand)
 \* "the nearest float": |m * 2^e - n/1000| <= half an ulp = 2^e / 2, i.e. |1000 m 2^e - n| <= 500 * 2^e
@@ -92,7 +175,8 @@ NearestFloat(n, m, e) ==
   ELSE Leq(AbsDiff(MulSmall(m, 1000), Mul(n, Pow2(0 - e))), FromNat(500))
 
 C08V(r) ==
-  IF r.raised # "" THEN <<"fail", "well-formed-line-rejected">>
+  IF r.kind = "SEC" THEN <<"fail", "well-formed-sync-section-rejected">>
+  ELSE IF r.raised # "" THEN <<"fail", "well-formed-line-rejected">>
   ELSE IF r.kind = "B" THEN
     IF FromDigits(r.nd) = Zero THEN Skip("zero-tempo")
     ELSE FirstFail(<<
@@ -133,6 +217,10 @@ VerdictOf(p, r) ==
     [] p = "C04" -> C04V(r)
     [] p = "C05" -> C05V(r)
     [] p = "C08" -> C08V(r)
+    [] p = "C01" -> C01V(r)
+    [] p = "C11" -> C11V(r)
+    [] p = "C12" -> C12V(r)
+    [] p = "C15" -> C15V(r)
     [] p = "C19" -> C19V(r)
     [] OTHER -> <<"fail", "unknown-property">>
 ==============================================================================
